@@ -1083,6 +1083,21 @@ pub fn run(ctx: &Ctx) -> Report {
             }
         }
     }
+    // degenerate run-time geometries ("any width and height"): width or height 0 - every point is out of
+    // bounds, nothing may change and nothing may panic
+    if !miri {
+        for kind in [Kind::Bw, Kind::Tri, Kind::Oct] {
+            if !want(kind.var_group()) {
+                continue;
+            }
+            for a in 0..=9u32 {
+                cases.push((1, Case::Var { w: 0, h: a, kind }));
+                if a > 0 {
+                    cases.push((1, Case::Var { w: a, h: 0, kind }));
+                }
+            }
+        }
+    }
     // heaviest first: par_run hands out chunks dynamically, so this balances the tail
     cases.sort_by(|a, b| b.0.cmp(&a.0));
     let cases: Vec<Case> = cases.into_iter().map(|c| c.1).collect();
